@@ -6,7 +6,7 @@ LEVEL = "model_checking"
 
 def run(tier, seed, limit=0):
     chk = engine.Check("C15", tier, seed)
-    scs = fam_dist.family_dist(tier, seed) + fam_dist.family_select(tier, seed)
+    scs = fam_dist.family_dist(tier, seed) + fam_dist.family_dist_foreach(tier, seed) + fam_dist.family_select(tier, seed)
     if limit:
         scs = scs[:limit]
     chk.run_scenarios(scs, "Trace_VscRand")
